@@ -395,6 +395,12 @@ class Driver(object):
         return False
       zk.srv_delete(PATH + '/' + nm)
       self.ev.append({'e': 'ZDelete', 'm': o[1], 'd': self.value_of(o[1])})
+    elif k == 'PS':      # the data of the watched path itself is changed (no membership change: the DataWatch fires)
+      if not zk.srv_exists(PATH):
+        return False
+      self.nsets = getattr(self, 'nsets', 0) + 1
+      zk.srv_set(PATH, b'v%d' % self.nsets)
+      self.ev.append({'e': 'Other', 'm': 0, 'd': 0})
     elif k == 'OC':      # a non-member child appears / disappears
       if not zk.srv_exists(PATH) or zk.srv_exists(PATH + '/' + OTHER):
         return False
@@ -882,6 +888,32 @@ def _empty_path_recreations(thorough):
   return out
 
 
+def _path_data_changes(thorough):
+  """The data of the watched path itself changes (somebody `set`s it: the DataWatch fires although neither the path
+  nor its members changed) between membership changes:
+    before   members announced before the change (0, 1, 2)
+    k        number of data changes (1, 2)
+    a        Serve steps between the data change and the next membership change (0, 1, Q)
+  then a member is created, settled, one deleted, settled; optionally the path is emptied, deleted and re-created
+  with a member afterwards."""
+  out = []
+  for before in (0, 1, 2):
+    for k in (1, 2):
+      for a in (0, 1, 'Q'):
+        for tail in (False, True):
+          ops = [['PC'], ['Q']] + [['ZC', m] for m in range(1, before + 1)] + [['Q']]
+          ops += [['PS']] * k
+          ops += [['Q']] if a == 'Q' else [['S']] * a
+          ops += [['ZC', 3], ['Q']]
+          if before:
+            ops += [['ZD', 1], ['Q']]
+          ops += [['PS'], ['ZD', 3], ['Q']]
+          if tail:
+            ops += [['ZD', m] for m in range(2, before + 1)] + [['Q'], ['PD'], ['Q'], ['PC'], ['PS'], ['ZC', 2], ['Q']]
+          out.append({'n': 3, 'nv': 3, 'rj': [], 'rl': [], 'ops': ops, 'endpoint': None})
+  return out
+
+
 def _member_types(thorough):
   """Members of other types than the library's Member (public argument member_factory: namedtuples, tuple subclasses,
   objects whose __str__ / __repr__ raise or contain % conversions) with raising callbacks in listings of 2-3 changes:
@@ -1015,7 +1047,8 @@ def cases(prop, tier, seed):
   n = 700 if not thorough else 6000
   out = (list(_counterexample_scripts(tier)) + list(_systematic()) + list(_reregistrations())
          + list(_mid_read_deletions(thorough)) + list(_blocking_callbacks(thorough))
-         + list(_empty_path_recreations(thorough)) + list(_member_types(thorough)) + list(_big_listings(thorough)))
+         + list(_empty_path_recreations(thorough)) + list(_member_types(thorough)) + list(_big_listings(thorough))
+         + list(_path_data_changes(thorough)))
   for i in range(n):
     if i % 3 == 2:
       out.append(_gen_churn(rng, [1, 2, 2, 3][(i // 3) % 4]))
